@@ -27,11 +27,18 @@ Individual elements of the vec don't have to be deallocated as they are u8.
 
 static DECOMPRESSION_POOL: OnceLock<rayon::ThreadPool> = OnceLock::new();
 
+/// How far the decoder is. `failed` is set if the decoder stops before `total_size`.
+#[derive(Default)]
+struct DecodeProgress {
+    decoded: usize,
+    failed: bool,
+}
+
 struct SyncVecWr {
     _arc: Arc<Vec<u8>>,
     data: ManuallyDrop<Vec<u8>>,
     total_size: usize,
-    decoded: Arc<(Mutex<usize>, Condvar)>,
+    decoded: Arc<(Mutex<DecodeProgress>, Condvar)>,
 }
 
 unsafe impl Send for SyncVecWr {}
@@ -40,27 +47,28 @@ struct SyncVecRd {
     _arc: Arc<Vec<u8>>,
     buffer: *const u8,
     total_size: usize,
-    decoded: Arc<(Mutex<usize>, Condvar)>,
+    decoded: Arc<(Mutex<DecodeProgress>, Condvar)>,
 }
 
 unsafe impl Send for SyncVecRd {}
 unsafe impl Sync for SyncVecRd {}
 
 impl SyncVecRd {
+    /// Wait until `end` bytes are decoded (or the decoder has failed).
+    /// Return the number of bytes decoded.
     #[inline]
-    pub fn wait_while<F>(&self, function: F) -> usize
-    where
-        F: Fn(&mut usize) -> bool,
-    {
+    pub fn wait_for(&self, end: usize) -> usize {
         let (lock, cvar) = &*self.decoded;
-        let decoded = cvar.wait_while(lock.lock().unwrap(), function).unwrap();
-        *decoded
+        let progress = cvar
+            .wait_while(lock.lock().unwrap(), |p| p.decoded < end && !p.failed)
+            .unwrap();
+        progress.decoded
     }
 
     #[inline]
     pub fn current_size(&self) -> usize {
         let (lock, _cvar) = &*self.decoded;
-        *lock.lock().unwrap()
+        lock.lock().unwrap().decoded
     }
 
     #[inline]
@@ -77,7 +85,7 @@ impl SyncVecRd {
 
 fn create_sync_vec(size: usize) -> (SyncVecWr, SyncVecRd) {
     let buffer = Arc::new(Vec::with_capacity(size));
-    let decoded = Arc::new((Mutex::new(0), Condvar::new()));
+    let decoded = Arc::new((Mutex::new(DecodeProgress::default()), Condvar::new()));
     let buffer_ptr = buffer.as_ptr();
     let rd = SyncVecRd {
         _arc: Arc::clone(&buffer),
@@ -113,14 +121,29 @@ fn decode_to_end<T: Read + Send>(
         let size = std::cmp::min(total_size - uncompressed, chunk_size);
         //  println!("decompress {size}");
 
-        uncompressed += decoder
+        let read = decoder
             .by_ref()
             .take(size as u64)
-            .read_to_end(&mut buffer.data)?;
+            .read_to_end(&mut buffer.data);
         let (lock, cvar) = &*buffer.decoded;
-        let mut decoded = lock.lock().unwrap();
-        *decoded = uncompressed;
-        cvar.notify_all();
+        let mut progress = lock.lock().unwrap();
+        match read {
+            Ok(read) if read > 0 => {
+                uncompressed += read;
+                progress.decoded = uncompressed;
+                cvar.notify_all();
+            }
+            other => {
+                // Decoder error or end of the compressed stream before `total_size`.
+                // Readers must not wait for data which will never come.
+                progress.failed = true;
+                cvar.notify_all();
+                return other.and(Err(std::io::Error::new(
+                    std::io::ErrorKind::UnexpectedEof,
+                    "Compressed stream is shorter than expected",
+                )));
+            }
+        }
     }
     //println!("Decompress done");
     Ok(())
@@ -139,14 +162,21 @@ impl SeekableDecoder {
                     .unwrap()
             })
             .spawn(move || {
-                decode_to_end(decoder, write_hand, 4 * 1024).unwrap();
+                // Error is reported to the readers through the shared progress.
+                let _ = decode_to_end(decoder, write_hand, 4 * 1024);
             });
         Self { buffer: read_hand }
     }
 
     #[inline]
-    pub fn decode_to(&self, end: usize) {
-        self.buffer.wait_while(|d: &mut usize| *d < end);
+    pub fn decode_to(&self, end: usize) -> std::io::Result<()> {
+        if self.buffer.wait_for(end) < end {
+            return Err(std::io::Error::new(
+                std::io::ErrorKind::InvalidData,
+                "Cannot decompress data",
+            ));
+        }
+        Ok(())
     }
 
     #[inline]
@@ -164,7 +194,7 @@ impl Source for SeekableDecoder {
             offset.force_into_usize() + buf.len(),
             self.buffer.total_size(),
         );
-        self.decode_to(end);
+        self.decode_to(end)?;
         let mut slice = &self.decoded_slice()[offset.force_into_usize()..];
         Read::read(&mut slice, buf)
     }
@@ -177,7 +207,7 @@ impl Source for SeekableDecoder {
                 "Out of slice",
             ));
         }
-        self.decode_to(end);
+        self.decode_to(end)?;
         let slice = self.decoded_slice();
         assert!(end <= slice.len());
         buf.copy_from_slice(&self.decoded_slice()[o..end]);
@@ -195,7 +225,7 @@ impl Source for SeekableDecoder {
                 self.size()
             )));
         }
-        self.decode_to(region.end().force_into_usize());
+        self.decode_to(region.end().force_into_usize())?;
         Ok(Cow::Borrowed(
             &self.decoded_slice()
                 [region.begin().force_into_usize()..region.end().force_into_usize()],
